@@ -233,7 +233,7 @@ def growth(rng, n, kind, types=''):
 
 class C05(Spec):
     id = 'C05'; engine = 'own'; harness = 'h_own'; driver = 'drv_own'
-    generators = ('Own', 'Table')     # Table: the parameters of src/Table.c that C05_table_source_good is stated about
+    generators = ('Own', 'Table', 'Tree')     # Table / Tree: the data of src/Table.c / src/Tree.c that the structural models read and C05_table_source_good / C05_tree_source_good are stated about
     harness_timeout = 300
     technique = ('Lean 4 proof over an ownership-level model of every Array/List/Table/Tree/Box operation (per-operation conservation of '
                  'element identities, invariant over all histories), composed with the structural models of the two map containers '
